@@ -98,24 +98,30 @@ Definition table_here (pk : kind) (pw : bool) (k : kind) (w : bool) (l : list tr
 Definition text_here (post : bool) (k : kind) (e : bool) (l : list tree) : bool :=
   match k with KText => (post || negb e) && match l with [] => true | _ => false end | _ => true end.
 
-(* bit mask of the clauses failing somewhere in the tree: 1 _sanity_checks, 2 block container / inline content,
-   4 table structure, 8 text boxes *)
-Fixpoint wf_mask (post : bool) (pk : kind) (pw : bool) (t : tree) : nat * nat * nat * nat :=
+(* a clause holds at every node of the tree; pk / pw = class and is_table_wrapper of the parent *)
+Fixpoint all_nodes (P : kind -> bool -> kind -> bool -> bool -> list tree -> bool) (pk : kind) (pw : bool) (t : tree) : bool :=
   match t with
   | N k f w e l =>
-      let here := ((if sanity_here k l then 0 else 1), (if ifc_here post k l then 0 else 1),
-                   (if table_here pk pw k w l then 0 else 1), (if text_here post k e l then 0 else 1)) in
-      fold_left (fun acc c => let '(a, b, c0, d) := acc in let '(a', b', c', d') := wf_mask post k w c in
-                              (Nat.max a a', Nat.max b b', Nat.max c0 c', Nat.max d d')) l here
+      P pk pw k w e l &&
+      (fix go (l : list tree) : bool := match l with [] => true | c :: r => all_nodes P k w c && go r end) l
   end.
 
-Definition spec_wf_tree (post : bool) (t : tree) : bool :=
-  match wf_mask post KOther false t with (0, 0, 0, 0) => true | _ => false end.
+Definition clause_sanity : kind -> bool -> kind -> bool -> bool -> list tree -> bool := fun _ _ k _ _ l => sanity_here k l.
+Definition clause_ifc (post : bool) : kind -> bool -> kind -> bool -> bool -> list tree -> bool := fun _ _ k _ _ l => ifc_here post k l.
+Definition clause_table : kind -> bool -> kind -> bool -> bool -> list tree -> bool := fun pk pw k w _ l => table_here pk pw k w l.
+Definition clause_text (post : bool) : kind -> bool -> kind -> bool -> bool -> list tree -> bool := fun _ _ k _ e l => text_here post k e l.
 
-(* judge for the monitor: (post-layout?, root box).  The root is given a neutral parent. *)
+(* the root is given a neutral parent *)
+Definition spec_wf_tree (post : bool) (t : tree) : bool :=
+  all_nodes clause_sanity KOther false t && all_nodes (clause_ifc post) KOther false t
+  && all_nodes clause_table KOther false t && all_nodes (clause_text post) KOther false t.
+
+(* judge for the monitor: (post-layout?, root box) -> bit mask of the clauses failing somewhere in the tree:
+   1 _sanity_checks, 2 block container / inline content, 4 table structure, 8 text boxes *)
 Definition wf_judge (c : bool * tree) : nat :=
   let '(post, t) := c in
-  let '(a, b, c0, d) := wf_mask post KOther false t in a + 2 * b + 4 * c0 + 8 * d.
+  (if all_nodes clause_sanity KOther false t then 0 else 1) + (if all_nodes (clause_ifc post) KOther false t then 0 else 2)
+  + (if all_nodes clause_table KOther false t then 0 else 4) + (if all_nodes (clause_text post) KOther false t then 0 else 8).
 
 (* column groups of a table: TableColumnGroupBox > TableColumnBox, nothing else *)
 Definition colgroups_judge (l : list tree) : nat :=
